@@ -261,3 +261,9 @@ package server
 //@   requires nonnil: t != nil && t.DB != nil && t.DB.db != nil && agent != nil && agent.Info != nil
 // the row rewritten is the row of the agent handed in
 //@   guard-call row: "AgentUpdate" arg(0) == t.DB && arg(1) == agent
+
+// C14: a profile without a Teamserver block is accepted by the decoder (Config.Server stays nil);
+// looking for the build tools must not depend on the block being there.
+//@ func (t *Teamserver) FindSystemPackages() (ok bool)
+//@   requires nonnil: t != nil && t.Profile != nil
+//@   modifies *
